@@ -397,6 +397,21 @@ func init() {
 		ex.mapDelete(m, a[1])
 		return nil
 	})
+	// sync.Once: the function runs on the first Do of that Once and never again (its own code spins on sync/atomic)
+	setIntrinsic("(*sync.Once).Do", func(ex *Exec, fn *ssa.Function, a []Value) Value {
+		p, ok := a[0].(*PtrV)
+		if !ok || p.P == nil {
+			ex.gopanic("runtime error: invalid memory address or nil pointer dereference")
+		}
+		if ex.onceDone == nil {
+			ex.onceDone = map[*Cell]bool{}
+		}
+		if !ex.onceDone[p.P] {
+			ex.onceDone[p.P] = true // as sync.Once: a Do that panics or blocks still counts as done
+			ex.callValue(a[1], nil)
+		}
+		return nil
+	})
 	// sync primitives used by stdlib on single-threaded paths
 	for _, n := range []string{"(*sync.Mutex).Lock", "(*sync.Mutex).Unlock", "(*sync.RWMutex).Lock", "(*sync.RWMutex).Unlock",
 		"(*sync.RWMutex).RLock", "(*sync.RWMutex).RUnlock", "runtime.KeepAlive", "runtime.GC", "runtime.Gosched"} {
